@@ -50,12 +50,20 @@ static void add_taint(char id)
 	atomic_fetch_or(&kernel.taint_flags, 1 << id);
 }
 
+static void make_runnable(fibre_t *f)
+{
+	if (!list_contains(&kernel.runq, &f->link, NULL)) {
+		(void) list_remove(&kernel.timerq, &f->link);
+		list_insert(&kernel.runq, &f->link);
+	}
+}
+
 static void handle_atomic_runq(void)
 {
 	fibre_t **f;
 
 	while (NULL != (f = messageq_receive(&kernel.atomic_runq))) {
-		fibre_run(*f);
+		make_runnable(*f);
 		messageq_release(&kernel.atomic_runq, f);
 	}
 }
@@ -176,11 +184,7 @@ void fibre_init(fibre_t *f, fibre_entrypoint_t *fn)
 void fibre_run(fibre_t *f)
 {
 	handle_atomic_runq();
-
-	if (!list_contains(&kernel.runq, &f->link, NULL)) {
-		(void) list_remove(&kernel.timerq, &f->link);
-		list_insert(&kernel.runq, &f->link);
-	}
+	make_runnable(f);
 }
 
 bool fibre_run_atomic(fibre_t *f)
